@@ -1,7 +1,7 @@
 (* C17 — ciphertext is split into request bodies without loss, overlap or oversize. *)
 From Coq Require Import List Arith NArith Lia Bool.
 Import ListNotations.
-Require Import Chunk Splitter Splitter2.
+Require Import Chunk Splitter Splitter2 Splitter3.
 Local Open Scope nat_scope.
 
 (* Data half: for every maximum size m >= 1, every fragmentation of the stream into payload blocks and a receiver
@@ -82,6 +82,29 @@ Proof. exact receiver_gone_fails_open. Qed.
 Check C17_receiver_gone_fails_open : forall max s ms d,
   budget s = 0 -> open s = true -> d <> [] -> (match max with Some m => ssize s < m | None => True end) ->
   snd (run max s (Payload d :: ms)) = RReceiverClosed.
+
+(* unlimited request size (Yandex Disk, Google Drive): one body at offset 0 holding the whole stream, or none for an
+   empty stream, then the finalisation *)
+Theorem C17_unlimited : forall blocks sum budget0,
+  2 * length blocks + 1 <= budget0 ->
+  exists es0, splitter None budget0 (map Payload blocks ++ [Eof sum]) =
+                (es0 ++ [EEof (length (concat blocks)) sum], ROk) /\
+              bodies (es0 ++ [EEof (length (concat blocks)) sum]) = one_body 0 (concat blocks).
+Proof. exact splitter_unlimited. Qed.
+Check C17_unlimited : forall blocks sum budget0,
+  2 * length blocks + 1 <= budget0 ->
+  exists es0, splitter None budget0 (map Payload blocks ++ [Eof sum]) =
+                (es0 ++ [EEof (length (concat blocks)) sum], ROk) /\
+              bodies (es0 ++ [EEof (length (concat blocks)) sum]) = one_body 0 (concat blocks).
+
+(* a message after the terminal one makes the sending side fail *)
+Theorem C17_extra_message_error : forall max s t m ms, budget s >= 1 ->
+  (exists sum, t = Eof sum) \/ (exists x, t = MErr x) ->
+  snd (run max s (t :: m :: ms)) = RExtraMessage.
+Proof. exact extra_message_error. Qed.
+Check C17_extra_message_error : forall max s t m ms, budget s >= 1 ->
+  (exists sum, t = Eof sum) \/ (exists x, t = MErr x) ->
+  snd (run max s (t :: m :: ms)) = RExtraMessage.
 
 (* non-vacuity: a straddling block and an exact fill *)
 Example C17_example :
